@@ -246,6 +246,13 @@ func (schemaCompiler) typeConstraintForJSONTypes(node schema.Node, val bytes.Byt
 	h, ok := jsonTypesHandler[valStr]
 	if ok {
 		h(node)
+		// The rule-set of an "or" rule is made with the JSON type of the outer
+		// example: it gets the JSON type of the values of the declared type.
+		if mixedNode, ok := node.(*schema.MixedNode); ok {
+			if t, ok := jsonTypeOfSchemaType[valStr]; ok {
+				mixedNode.SetJsonType(t)
+			}
+		}
 	} else {
 		t := json.NewJsonType(val)                         // can panic
 		if mixedNode, ok := node.(*schema.MixedNode); ok { // defined json type for mixed node
@@ -257,6 +264,17 @@ func (schemaCompiler) typeConstraintForJSONTypes(node schema.Node, val bytes.Byt
 	if !node.SetRealType(valStr) {
 		panic(errors.Format(errors.ErrIncompatibleTypes, valStr))
 	}
+}
+
+// jsonTypeOfSchemaType the JSON type of the values of the types which aren't
+// JSON types themselves ("enum", "mixed" and "any" have no JSON type of their own).
+var jsonTypeOfSchemaType = map[string]json.Type{
+	"decimal":  json.TypeFloat,
+	"email":    json.TypeString,
+	"uri":      json.TypeString,
+	"uuid":     json.TypeString,
+	"date":     json.TypeString,
+	"datetime": json.TypeString,
 }
 
 var jsonTypesHandler = map[string]func(node schema.Node){
